@@ -86,6 +86,9 @@ class Profile:
     this_scoped: bool = True          # This::X uses
     global_typedefs: bool = True
     favourite_members: Tuple[str, ...] = ()   # member names tried first
+    tparam_pool: Tuple[str, ...] = ()  # if set: template parameter names come from here only
+    compilable: bool = False          # only what a mechanically generated C++ library can declare
+    executable: bool = False          # compilable + callable from Python with generated values
     scoped_needs_plain_arg: bool = False
 
 
@@ -115,6 +118,10 @@ class Ctx:
         self.lower_classes = set()
         self.scoped_ok = set()  # template parameters that may be used as T::X
         self.enum_types = []    # enum types usable in the member being generated (M.Type)
+        self.enum_values = {}   # (path, owner, name) -> enumerators
+        self.fn_sigs = set()
+        self.fn_templates = set()
+        self.enumerators = set()  # all enumerator names used (compilable: must be unique)
         self.fn_count = {}      # (path, name) -> number of free functions of that name
         self.locked = set()     # (path, name) used as typedef target: must stay unique
 
@@ -134,7 +141,14 @@ def _ident(pool: Sequence[str], regex: str, used=()):
     return rnd
 
 
+FOREIGN_NAMES = {n for _, n in FOREIGN_TYPES} | {n for _, n, _ in FOREIGN_TEMPLATES}
+_COMPILABLE = [False]  # set per generated module: declared names must not clash with the
+#                        foreign types the mock library defines
+
+
 def class_name(used=()):
+    if _COMPILABLE[0]:
+        used = set(used) | FOREIGN_NAMES | {'T', 'This'}
     return _ident(CLASS_POOL, r'[A-Z][A-Za-z0-9]{0,5}', used)
 
 
@@ -179,6 +193,10 @@ def types(draw, ctx: Ctx, depth: int, tparams: Sequence[str] = (), qualifiers=Tr
         cats += ['enum'] * 2
     if numbers and inner:
         cats.append('number')
+    if prof.compilable:
+        cats = [c for c in cats if c not in ('scoped', 'number')]
+        if prof.executable:
+            cats = [c for c in cats if c not in ('foreign', 'templated')] or ['basic']
     cat = draw(st.sampled_from(cats))
     ns: Tuple[str, ...] = ()
     targs: Tuple[M.Type, ...] = ()
@@ -206,7 +224,7 @@ def types(draw, ctx: Ctx, depth: int, tparams: Sequence[str] = (), qualifiers=Tr
             inner_names = [n for n in inner_names if n not in tparams]
         name = draw(st.sampled_from(inner_names))
     elif cat == 'this':
-        if draw(st.booleans()) or not prof.this_scoped:
+        if draw(st.booleans()) or not prof.this_scoped or prof.compilable:
             name = 'This'
         else:
             ns, name = ('This',), draw(st.sampled_from(['Value', 'Type', 'Sub']))
@@ -216,7 +234,8 @@ def types(draw, ctx: Ctx, depth: int, tparams: Sequence[str] = (), qualifiers=Tr
     elif cat == 'number':
         name = str(draw(st.integers(0, 99)))
     else:  # templated
-        tdecls = [d for d in ctx.decls if d.kind in ('class', 'fwd') and d.nparams > 0]
+        tdecls = [d for d in ctx.decls if d.kind in (('class',) if prof.compilable
+                                                     else ('class', 'fwd')) and d.nparams > 0]
         if tdecls and draw(st.booleans()):
             d = draw(st.sampled_from(tdecls))
             ns, name, n = d.path, d.name, d.nparams
@@ -229,7 +248,55 @@ def types(draw, ctx: Ctx, depth: int, tparams: Sequence[str] = (), qualifiers=Tr
     if top_qualifiers and cat != 'number' and name != 'void':
         const = draw(st.booleans()) and draw(st.booleans())
         ptr = draw(st.sampled_from(['', '', '', '*', '@', '&', '&']))
+        if prof.compilable and (cat in ('basic', 'enum') or name in ('string',)):
+            # pybind11 has no holder / pointer casters for fundamental types and strings
+            ptr = '&' if ptr == '&' and const else ''
+            if cat == 'enum':
+                ptr = ''
+        if prof.compilable and inner:
+            const = False  # standard containers cannot hold const or reference types
+            ptr = ptr if ptr == '*' and cat not in ('basic', 'enum', 'tparam') else ''
+        if prof.compilable and cat == 'tparam' and ptr in ('*', '@'):
+            ptr = ''  # T may be instantiated with a fundamental type
+        if prof.executable and ptr == '&' and not const and cat not in ('custom', 'this'):
+            ptr = ''
     return M.Type(ns, name, targs, const, ptr)
+
+
+TYPED_DEFAULTS = {
+    'bool': ['true', 'false'], 'int': ['0', '-1', '42', '(1 + 2)'], 'size_t': ['0', '7', '100'],
+    'double': ['1.5', '-9.81', '1e-9', '0.0'], 'float': ['0.5f'], 'char': ["'c'", "'('", "','"],
+    'unsigned char': ['7'],
+    'string': ['"hello"', '""', '"a, b"', '"(unbalanced"', '"} ;"', '"it\'s"', '"<"'],
+}
+
+
+def typed_default(draw, ctx, t: M.Type, tparams=()):
+    """A default-value expression that is valid C++ for the declared type (or None)."""
+    if t.targs or t.name in tparams or t.name == 'This' or (t.ns and t.ns[0] == 'This'):
+        return None
+    if not t.ns and t.name in TYPED_DEFAULTS and t.ptr in ('', '&'):
+        if t.ptr == '&' and not t.const:
+            return None
+        return draw(st.sampled_from(TYPED_DEFAULTS[t.name]))
+    if t.ns == ('std',) and t.name == 'string' and t.ptr in ('', '&'):
+        return draw(st.sampled_from(TYPED_DEFAULTS['string']))
+    for (p_, owner, en) in ctx.enums:
+        full = p_ + ((owner,) if owner else ())
+        if t.ns == full and t.name == en:
+            vals = ctx.enum_values.get((p_, owner, en))
+            if vals:
+                return '::'.join(full + (en, draw(st.sampled_from(list(vals)))))
+    if ctx.prof.executable:
+        return None
+    for d in ctx.classes():
+        if (d.path, d.name) == (t.ns, t.name):
+            if t.ptr == '':
+                return '::'.join(d.path + (d.name,)) + '()'
+            if t.ptr == '&' and t.const:
+                return '::'.join(d.path + (d.name,)) + '()'
+            return None
+    return None
 
 
 @st.composite
@@ -238,6 +305,8 @@ def arg_lists(draw, ctx: Ctx, tparams=(), this=False, max_args=None, min_args=0)
     n = draw(st.integers(min_args, prof.max_args if max_args is None else max_args))
     used = set()
     args = []
+    if prof.compilable:
+        used |= set(tparams) | {'T', 'This'}
     for _ in range(n):
         nm = draw(lower_name(ARG_POOL, used))
         used.add(nm)
@@ -249,8 +318,18 @@ def arg_lists(draw, ctx: Ctx, tparams=(), this=False, max_args=None, min_args=0)
             mask = [i >= len(args) - k for i in range(len(args))]
         else:
             mask = [draw(st.booleans()) and draw(st.booleans()) for _ in args]
-        args = [replace(a, default=draw(st.sampled_from(DEFAULTS))) if m else a
-                for a, m in zip(args, mask)]
+        if prof.compilable:
+            new = []
+            ok = True
+            for a, m in zip(reversed(args), reversed(mask)):
+                d = typed_default(draw, ctx, a.type, tparams) if (m and ok) else None
+                if d is None:
+                    ok = False  # defaults must stay a suffix
+                new.append(replace(a, default=d))
+            args = list(reversed(new))
+        else:
+            args = [replace(a, default=draw(st.sampled_from(DEFAULTS))) if m else a
+                    for a, m in zip(args, mask)]
     return tuple(args)
 
 
@@ -280,7 +359,11 @@ def templates(draw, ctx: Ctx, used=(), force_lists=None, max_params=None):
             {n_ for _, n_, _ in FOREIGN_TEMPLATES} | {e[2] for e in ctx.enums} | \
             {c for pth in ctx.used for c in pth} | set(NS_POOL)
     for _ in range(n):
-        nm = draw(tparam_name(set(used) | set(names)))
+        if prof.tparam_pool:
+            nm = draw(st.sampled_from([x for x in prof.tparam_pool
+                                       if x not in used and x not in names]))
+        else:
+            nm = draw(tparam_name(set(used) | set(names)))
         names.append(nm)
     if force_lists is None:
         mode = draw(st.sampled_from([m for m in prof.template_modes if m != 'mixed' or n > 1]))
@@ -295,7 +378,7 @@ def templates(draw, ctx: Ctx, used=(), force_lists=None, max_params=None):
             k = draw(st.integers(1, prof.max_insts))
             lst = []
             for _ in range(k):
-                x = draw(types(ctx, 2, (), qualifiers=qual, numbers=True,
+                x = draw(types(ctx, 2, (), qualifiers=qual, numbers=not prof.compilable,
                                templated=True, top_qualifiers=False))
                 # an instantiation list names each type once, and the generated names
                 # (NameArg..., namespaces do not take part) must differ
@@ -320,11 +403,39 @@ def enums(draw, ctx: Ctx, used):
     nm = draw(_ident(ENUM_POOL, r'[A-Z][a-zA-Z0-9]{0,5}', used))
     n = draw(st.integers(1, 5))
     es = []
+    raw = []
     for _ in range(n):
-        e = draw(_ident(ENUMERATOR_POOL, r'[A-Za-z][A-Za-z0-9_]{0,5}', set(es)))
+        e = draw(_ident(ENUMERATOR_POOL, r'[A-Za-z][A-Za-z0-9_]{0,5}', set(raw)))
+        raw.append(e)
+        if ctx.prof.compilable:
+            e = nm + '_' + e  # unscoped enumerators share the enclosing scope: keep them unique
         es.append(e)
     kw = draw(st.sampled_from(['enum', 'enum', 'enum class', 'enum struct']))
+    ctx.last_enum = (nm, tuple(es))
     return M.Enum(nm, tuple(es), kw)
+
+
+def _distinct_signatures(members):
+    """C++ cannot overload on return type or declare the same member twice: keep the first of
+    each (kind-agnostic name, parameter types) and one operator per spelling and arity."""
+    seen, out = set(), []
+    for m in members:
+        if isinstance(m, (M.Method, M.Static, M.Ctor)):
+            key = ('call', m.name, tuple(M.replace(a.type, const=False) if a.type.ptr == ''
+                                         else a.type for a in m.args))
+        elif isinstance(m, M.Operator):
+            key = ('op', m.op, len(m.args) if m.op not in ('()', '[]') else 0)
+        elif isinstance(m, M.Dunder):
+            key = ('dunder', m.name)
+        else:
+            out.append(m)
+            continue
+        if key in seen:
+            continue
+        seen.add(key)
+        out.append(m)
+    names = {m.name for m in out if isinstance(m, M.Prop)}
+    return [m for m in out if not (isinstance(m, (M.Method, M.Static)) and m.name in names)]
 
 
 @st.composite
@@ -363,7 +474,8 @@ def classes(draw, ctx: Ctx, path: Tuple[str, ...]):
             parent = draw(types(ctx, 2, ctp, qualifiers=False).filter(
                 lambda t: bool(t.targs) and not t.name.isdigit()))
         elif prof.foreign_types:
-            ns, nm = draw(st.sampled_from(FOREIGN_TYPES))
+            ns, nm = draw(st.sampled_from([x for x in FOREIGN_TYPES if x[1] != 'string']
+                                          if prof.compilable else FOREIGN_TYPES))
             parent = M.Type(ns, nm)
     members = []
     n = draw(st.integers(0, prof.max_members))
@@ -391,7 +503,15 @@ def classes(draw, ctx: Ctx, path: Tuple[str, ...]):
                 mt = draw(templates(ctx, used=ctp, force_lists=True, max_params=2))
                 ctx.scoped_ok |= {p.name for p in mt.params if not any(i.targs for i in p.insts)}
             tps = ctp + (tuple(mt.names()) if mt else ())
-            members.append(M.Ctor(name, draw(arg_lists(ctx, tps, this=True)), mt))
+            cargs = draw(arg_lists(ctx, tps, this=True))
+            if mt and prof.compilable:
+                # constructor template parameters must be deducible from the arguments
+                cargs = tuple(M.Arg(M.Type((), p_), 'd%d' % i_) for i_, p_ in
+                              enumerate(mt.names())) + tuple(
+                    a_ for a_ in cargs if not a_.name.startswith('d'))
+                cargs = tuple(replace(a_, default=None) if a_.default is not None and False
+                              else a_ for a_ in cargs)
+            members.append(M.Ctor(name, cargs, mt))
         elif k in ('method', 'static'):
             mt = None
             if prof.templates and draw(st.integers(0, prof.member_template_odds)) == 0:
@@ -402,7 +522,10 @@ def classes(draw, ctx: Ctx, path: Tuple[str, ...]):
             r = draw(rets(ctx, tps, this=True))
             a = draw(arg_lists(ctx, tps, this=True))
             if k == 'method':
-                members.append(M.Method(r, mname, a, draw(st.booleans()), mt))
+                is_const = draw(st.booleans())
+                if mname == 'print' and findings.is_open('F-33-print-must-be-const'):
+                    is_const = True
+                members.append(M.Method(r, mname, a, is_const, mt))
             else:
                 members.append(M.Static(r, mname, a, mt))
         elif k == 'prop':
@@ -431,6 +554,7 @@ def classes(draw, ctx: Ctx, path: Tuple[str, ...]):
             e = draw(enums(ctx, enum_names | {name}))
             enum_names.add(e.name)
             ctx.enums.append((path, name, e.name))
+            ctx.enum_values[(path, name, e.name)] = e.enumerators
             if not template:
                 ctx.enum_types = ctx.enum_types + [M.Type(path + (name,), e.name)]
             members.append(e)
@@ -442,8 +566,14 @@ def classes(draw, ctx: Ctx, path: Tuple[str, ...]):
             else:
                 dn = draw(st.sampled_from(['len', 'contains', 'iter']))
                 a = draw(arg_lists(ctx, ctp, max_args=1, min_args=1)) if dn == 'contains' else ()
-                members.append(M.Dunder(dn, a))
+                if prof.compilable and dn == 'contains':
+                    a = (M.Arg(M.Type((), 'int'), 'key'),)
+                if not (prof.compilable and any(isinstance(x, M.Dunder) and x.name == dn
+                                                for x in members)):
+                    members.append(M.Dunder(dn, a))
     ctx.enum_types = []
+    if prof.compilable:
+        members = _distinct_signatures(members)
     has_lists = bool(template) and all(p.insts for p in template.params)
     cls = M.Class(name, tuple(members), template, virtual, parent)
     scoped = any(t2.ns and t2.ns[0] in ctp for t in M.all_types(cls) for t2 in t.walk())
@@ -470,6 +600,15 @@ def functions(draw, ctx: Ctx, path):
     r = draw(rets(ctx, tps))
     a = draw(arg_lists(ctx, tps))
     fn = M.Func(r, name, a, template)
+    if prof.compilable:
+        key = (path, name, tuple(M.replace(x.type, const=False) if x.type.ptr == '' else x.type
+                                 for x in a))
+        if key in ctx.fn_sigs or (path, name) in ctx.fn_templates or \
+                (template and any(k[0] == path and k[1] == name for k in ctx.fn_sigs)):
+            return None
+        ctx.fn_sigs.add(key)
+        if template:
+            ctx.fn_templates.add((path, name))
     if template and not any(d.name == name and d.path == path for d in ctx.decls):
         scoped = any(t2.ns and t2.ns[0] in tps for t in M.all_types(fn) for t2 in t.walk())
         ctx.decls.append(Decl(path, name, 'func', len(tps), False,
@@ -554,6 +693,8 @@ def variables(draw, ctx: Ctx, path):
     used.add(name)
     t = draw(types(ctx, 2, ()))
     dflt = draw(st.sampled_from(DEFAULTS)) if ctx.prof.defaults and draw(st.booleans()) else None
+    if ctx.prof.compilable and dflt is not None:
+        dflt = typed_default(draw, ctx, t)
     return M.Var(t, name, dflt)
 
 
@@ -582,11 +723,14 @@ def contents(draw, ctx: Ctx, path: Tuple[str, ...], depth_left: int, max_items=N
         if k == 'class':
             out.append(draw(classes(ctx, path)))
         elif k == 'func':
-            out.append(draw(functions(ctx, path)))
+            f_ = draw(functions(ctx, path))
+            if f_ is not None:
+                out.append(f_)
         elif k == 'enum':
             e = draw(enums(ctx, ctx.names(path)))
             ctx.names(path).add(e.name)
             ctx.enums.append((path, None, e.name))
+            ctx.enum_values[(path, None, e.name)] = e.enumerators
             out.append(e)
         elif k == 'var':
             out.append(draw(variables(ctx, path)))
@@ -602,7 +746,13 @@ def contents(draw, ctx: Ctx, path: Tuple[str, ...], depth_left: int, max_items=N
                 out.append(t)
         else:
             used = ctx.names(path)
-            nm = draw(lower_name(NS_POOL, used))  # a namespace is opened once per scope
+            ns_used = used
+            if prof.compilable:
+                # a namespace must not hide the foreign namespaces / enclosing names it refers to
+                ns_used = set(used) | {'gtsam', 'ns', 'std', 'Eigen'} | set(path)
+                if not path:
+                    ns_used -= {'gtsam'}
+            nm = draw(lower_name(NS_POOL, ns_used))  # a namespace is opened once per scope
             used.add(nm)
             out.append(M.Namespace(nm, draw(contents(ctx, path + (nm,), depth_left - 1))))
     if prof.move_typedefs:
@@ -615,6 +765,7 @@ def contents(draw, ctx: Ctx, path: Tuple[str, ...], depth_left: int, max_items=N
 
 @st.composite
 def modules(draw, prof: Profile = DIALECT):
+    _COMPILABLE[0] = prof.compilable
     ctx = Ctx(prof)
     return M.Module(draw(contents(ctx, (), prof.ns_depth)))
 
